@@ -8,6 +8,7 @@ wrappers and the import-time patching are the library's real code.
 """
 from __future__ import annotations
 
+import functools
 import multiprocessing
 import multiprocessing.context
 import os
@@ -143,16 +144,29 @@ class Proc:
 class ProcWorld:
     """Adds simulated processes to a World (process 0 = the canonical import)."""
 
-    def __init__(self, world):
+    def __init__(self, world, prewrapped=False):
+        """``prewrapped``: every process of this world imports the library after some other
+        package (a tracer, a logger) has put its own ``functools.wraps`` wrapper around
+        ``Process.start``; process 0 then is a fresh execution of utils.py as well."""
         self.w = world
         self.k = world.k
         self.procs = []
         k = self.k
-        u0 = world.utils
-        self._patch_mp(u0.__dict__)
-        boot = world.boot
-        u0._process_start_wrapper.__wrapped__ = self._sim_start
-        u0._process_run_wrapper.__wrapped__ = self._sim_run
+        self.prewrapped = prewrapped
+        if prewrapped:
+            def third_party_start(po, *args, **kwargs):
+                return third_party_start.__wrapped__(po, *args, **kwargs)
+
+            self.third_party_start = functools.wraps(simworld._PROC_START)(third_party_start)
+            u0 = self._load_copy()
+            self.third_party_start.__wrapped__ = self._sim_start
+        else:
+            u0 = world.utils
+            self._patch_mp(u0.__dict__)
+            u0._process_start_wrapper.__wrapped__ = self._sim_start
+            u0._process_run_wrapper.__wrapped__ = self._sim_run
+            u0._installed_start = u0._process_start_wrapper
+            u0._installed_run = u0._process_run_wrapper
         self.p0 = Proc(0, u0, None, None)
         self.procs.append(self.p0)
         self.current_proc = {}   # task tid -> Proc
@@ -194,8 +208,13 @@ class ProcWorld:
         pty = simworld._pty
         sys.__stdout__ = simworld._FakeStd(pty[1])
         threading.RLock = rlock_factory
+        if self.prewrapped:
+            multiprocessing.context.Process.start = self.third_party_start
         try:
             exec(code, mod.__dict__)
+            # what Process.start / Process.run are once this process has imported the library
+            mod._installed_start = multiprocessing.context.Process.start
+            mod._installed_run = multiprocessing.context.Process.run
         finally:
             threading.RLock = simworld._real["RLock"]
             sys.__stdout__ = old_stdout
@@ -245,7 +264,10 @@ class ProcWorld:
         po._parent = parent
         self.starts += 1
         # this is what Process.start is after the library patched it
-        parent.utils._process_start_wrapper(po)
+        start = parent.utils._installed_start
+        if start is simworld._PROC_START:
+            start = self._sim_start         # (nobody wrapped it: the multiprocessing stub)
+        start(po)
         return po
 
     def _sim_start(self, po):
@@ -273,7 +295,10 @@ class ProcWorld:
         def child_main():
             self.current_proc[k.current.tid] = child
             # what Process.run is after the library patched it (in the child)
-            child.utils._process_run_wrapper(po)
+            run = child.utils._installed_run
+            if run is simworld._PROC_RUN:
+                run = self._sim_run
+            run(po)
 
         t = k.spawn(child_main, "p%d-main" % child.pid, child.pid)
         child.tasks.append(t)
